@@ -134,7 +134,7 @@ package monoid
 //
 //@ schema N=2..21
 //@ lemma tuple{N}Def[<<i=1..N|, |A$i>> any](<<i=1..N|, |m$i fp.Monoid[A$i]>>, a fp.Tuple{N}[<<i=1..N|, |A$i>>], b fp.Tuple{N}[<<i=1..N|, |A$i>>])
-//@   prop C11
+//@   prop C11 C14
 //@   ensures Eq(Tuple{N}(<<i=1..N|, |m$i>>).Combine(a, b), fp.Tuple{N}[<<i=1..N|, |A$i>>]{<<i=1..N|, |I$i: m$i.Combine(a.I$i, b.I$i)>>})
 //@   tag componentwise
 //@   ensures Eq(Tuple{N}(<<i=1..N|, |m$i>>).Empty(), fp.Tuple{N}[<<i=1..N|, |A$i>>]{<<i=1..N|, |I$i: m$i.Empty()>>})
